@@ -74,9 +74,8 @@ def _regions(chrpre, par):
     return regs
 
 
-def case_config(run, i):
-    _n_cfg(run.tier)
-    ploidy, purity, male_ref, female, chrpre, par = _CFG[run.tier][i]
+def _table_for(cfg):
+    ploidy, purity, male_ref, female, chrpre, par = cfg
     xl, yl = chrpre + "X", chrpre + "Y"
     rows, truth = [], []
     for chrom, s, e in _regions(chrpre, par):
@@ -100,6 +99,13 @@ def case_config(run, i):
     rows, truth = [rows[k] for k in order], [truth[k] for k in order]
     cna = make_cna({"chromosome": [r[0] for r in rows], "start": [r[1] for r in rows], "end": [r[2] for r in rows],
                     "gene": ["G"] * len(rows), "log2": [r[3] for r in rows], "probes": [10] * len(rows), "weight": [1.0] * len(rows)})
+    return cna, rows, truth
+
+
+def case_config(run, i):
+    _n_cfg(run.tier)
+    ploidy, purity, male_ref, female, chrpre, par = _CFG[run.tier][i]
+    cna, rows, truth = _table_for(_CFG[run.tier][i])
     run.begin_case("config", i, cls=f"cfg:ploidy{ploidy}:{'purity' if purity < 1 else 'pure'}:{'par' if par else 'nopar'}",
                    truth_n=truth, config=dict(ploidy=ploidy, purity=purity, male_ref=male_ref, female=female, naming=chrpre or "plain", par=par))
     import cnvlib.call as C
@@ -149,6 +155,50 @@ def case_random(run, i):
                  sample={"ploidy": ploidy, "purity": purity, "log2": lg[:5]} if i % 97 == 0 else None)
 
 
-WORKLOADS = {"config": (_n_cfg, case_config), "random": (_n_random, case_random)}
-QUOTAS = {"quick": {"call.do_call|held": 800, "class:cfg:ploidy2:purity:par": 5, "class:cfg:ploidy1:purity:nopar": 20},
-          "thorough": {"call.do_call|held": 5000}}
+def _n_cli(tier):
+    return 32 if tier == "quick" else 300
+
+
+def case_cli(run, i):
+    """`cnvkit.py call -m clonal` on a written .cns: plumbing of --purity/--ploidy/-x/-y/--diploid-parx-genome and the written file."""
+    import os
+    import shutil
+    from skgenome import tabio
+    from ..monitors import cli_plumb
+    import cnvlib.call as C
+    _n_cfg(run.tier)
+    cfgs = _CFG[run.tier]
+    cfg = cfgs[(i * 7919) % len(cfgs)]
+    if i % 4 == 3:
+        pure = [c for c in cfgs if c[1] >= 1.0]
+        cfg = pure[(i * 104729) % len(pure)]        # --center-at is only driven without a purity
+    ploidy, purity, male_ref, female, chrpre, par = cfg
+    cna, rows, truth = _table_for(cfg)
+    d = os.path.join(run.workdir, f"clicall{run.shard}_{i}")
+    os.makedirs(d, exist_ok=True)
+    inf, outf = os.path.join(d, "S.cns"), os.path.join(d, "S.call.cns")
+    with run.monitor_scope():
+        tabio.write(cna, inf)
+    center_at = [0.25, -0.5][(i // 4) % 2] if (purity >= 1.0 and i % 4 == 3) else None     # with a purity the model's log2 must reach do_call unshifted
+    argv = ["call", inf, "-m", "clonal", "--ploidy", str(ploidy), "-o", outf, "-x", "female" if female else "male"]
+    if purity < 1.0 or i % 3 == 0:
+        argv += ["--purity", repr(purity)]
+    if male_ref:
+        argv.append("-y")
+    if par:
+        argv += ["--diploid-parx-genome", par]
+    if center_at:
+        argv += ["--center-at", str(center_at)]
+    expect = dict(method="clonal", ploidy=ploidy, purity=(purity if "--purity" in argv else None), male_ref=male_ref,
+                  female=(female if purity < 1.0 else None), par=par, filters=[], thresholds=None, center_at=center_at)
+    run.begin_case("cli", i, cls="cli:clonal" + (":purity" if purity < 1 else ":pure"), truth_n=None if center_at else truth,
+                   config=dict(ploidy=ploidy, purity=purity, male_ref=male_ref, female=female, naming=chrpre or "plain", par=par),
+                   log2_tol=2e-3)     # the input went through the 6-significant-digit writer; at low purity the inversion amplifies that
+    cli_plumb.check_call_cli(run, rt, inf, outf, argv, expect, [r[3] for r in rows] if False else [float("%.6g" % r[3]) for r in rows])
+    shutil.rmtree(d, ignore_errors=True)
+    run.end_case(fp=f"cli{i}", nontrivial=True)
+
+
+WORKLOADS = {"config": (_n_cfg, case_config), "random": (_n_random, case_random), "cli": (_n_cli, case_cli)}
+QUOTAS = {"quick": {"cli.call[plumbing]|held": 25, "class:cli-call:clonal:center-at": 4, "call.do_call|held": 800, "class:cfg:ploidy2:purity:par": 5, "class:cfg:ploidy1:purity:nopar": 20},
+          "thorough": {"call.do_call|held": 5000, "cli.call[plumbing]|held": 250}}
